@@ -42,6 +42,20 @@ def workload(tier, rng):
         length = gen.need_len(3, k, 0) + rng.choice([0, 1, 8])
         p = P(3, k, r, N1=n1, seed=seed, length=length, align=rng.choice([0, 0, 3]))
         execs.append(gen.encode_exec(p, slots=rng.choice(["buf", "null", ["null", "buf"]])))
+    # replicated identity payloads: the generator row must show up in every block of k positions, so the
+    # whole symbol (all byte-kernel branches: 64/32-bit words, 16-byte unrolling, tails) carries non-zero data
+    for _ in range(120 if q else 1500):
+        c = rng.choice([1, 2, 2, 3])
+        length = rng.choice(list(range(1, 81)) + [100, 128, 131, 255, 1000])
+        if c == 3:
+            k = rng.randint(1, 24); r = rng.randint(3, 16)
+            p = P(3, k, r, N1=rng.randint(3, min(r, 7)), seed=rng.randint(1, 10 ** 9), length=max(length, gen.need_len(3, k, 0)),
+                  payload="idr", align=rng.randint(0, 7))
+        else:
+            m = 0 if c == 1 else rng.choice([4, 4, 8]); lim = 15 if m == 4 else 40
+            n = rng.randint(2, lim); k = rng.randint(1, n - 1)
+            p = P(c, k, n - k, m=m, length=max(length, gen.need_len(c, k, m)), payload="idr", align=rng.randint(0, 7))
+        execs.append(gen.encode_exec(p, slots=rng.choice(["buf", "null", ["buf", "null"]])))
     # random payloads: only status / slot / source-buffer integrity are observable
     for _ in range(20 if q else 200):
         c = rng.choice([1, 2, 3])
